@@ -68,6 +68,7 @@ class Seq(Node):
 
   def sketch(self, seen):
     o, c = {'list': '[]', 'tuple': '()', 'point': ('Point(', ')'), 'pair': ('Pair(', ')'),
+            'pointsub': ('PointSub(', ')'),
             'tempbox': ('TempBox(', ')'), 'latebox': ('LateBox(', ')')}[self.typ]
     return f'{o}{", ".join(sk(i, seen) for i in self.items)}{c}'
 
@@ -260,7 +261,8 @@ def to_special_btypes(root, rng, p=0.3, pinned=False):
     n_changed += 1
   return n_changed
 SEQ_MAKERS = {'list': list, 'tuple': tuple, 'point': lambda it: kinds.Point(*it),
-              'pair': lambda it: kinds.Pair(*it), 'tempbox': vnodes.TempBox,
+              'pair': lambda it: kinds.Pair(*it), 'pointsub': lambda it: kinds.PointSub(*it),
+              'tempbox': vnodes.TempBox,
               'latebox': vnodes.LateBox}
 
 
@@ -419,7 +421,7 @@ class DagGen:
     elif typ == 'dictobj':
       # an object serialized through its __dict__ (serialization.register_dict_based_object)
       n = Map(typ, [(f'f{i}', self.child(depth + 1)) for i in range(rng.randint(1, 3))])
-    elif typ in ('point', 'pair'):
+    elif typ in ('point', 'pair', 'pointsub'):
       n = Seq(typ, [self.child(depth + 1), self.child(depth + 1)])
     else:
       n = Seq(typ, [self.child(depth + 1) for _ in range(rng.randint(0, 3))])
